@@ -113,6 +113,29 @@ def c16_ledger():
     return viol, {"kind": "native replay (testing, not proof)", "inputs": len(paths), "outcomes": {os.path.basename(r["file"]): r["outcome"] for r in recs}}
 
 
+def c17_ledger():
+    """every recorded input (findings/inputs/*.rs) that the derive accepts must expand to a sequence of Rust items.
+    TESTING, not proof; one obligation per input, so a known finding names exactly one input."""
+    import glob
+    import os
+    verif = os.path.dirname(os.path.dirname(os.path.abspath(__file__)))
+    paths = sorted(glob.glob(os.path.join(verif, "findings", "inputs", "*.rs")))
+    recs, err = replay_inputs(paths)
+    if recs is None:
+        return [], {"kind": "native replay (testing, not proof)", "skipped": err}
+    viol = []
+    for r in recs:
+        if r["outcome"] == "ok" and not r["items_parse"]:
+            name = os.path.basename(r["file"])
+            viol.append({"obligation": "well-formed@" + name, "fn": None, "props": ["C17"],
+                         "message": "the derive accepts this input and emits tokens that are not a sequence of Rust items",
+                         "failing_input": {"engine": "native replay of the real o2o_impl::expand::derive", "input_file": "findings/inputs/" + name,
+                                           "input": open(r["file"]).read(), "expansion": r["text"][:3000]},
+                         "rendered": r["text"][:3000], "where": [], "unit": "replay"})
+    return viol, {"kind": "native replay (testing, not proof)", "inputs": len(paths), "accepted": sum(1 for r in recs if r["outcome"] == "ok"),
+                  "accepted_and_well_formed": sum(1 for r in recs if r["outcome"] == "ok" and r["items_parse"])}
+
+
 def c10_walk_conformance():
     """BOUNDED conformance test (not proof) of the assumed contract `walk` = replace_tilde_or_at_in_expr, on the real code:
     all token trees over {~ @ a 1 +} with <= 2 tokens per level and groups () [] {} nested to depth 2, plus hand-written cases."""
@@ -158,6 +181,12 @@ STRUCT = {
     "c11": ("get_quote_trait_params (assumed callee of the quote_*_trait contracts: `for` loop over a collection, parse_quote!)",
             "the deriving type's parameters are declared once on the impl (bounds kept, no defaults) and applied in argument form; counterpart-only lifetimes are declared; the dedicated-else-default where_clause is attached; by-reference impls over lifetimes get `&'o2o` with 'o2o outliving exactly the borrowed result's lifetimes",
             "11 parameter lists (lifetimes, bounded / defaulted / const parameters) x 8 counterpart paths (generic, lifetime, foreign and repeated lifetime arguments) x 12 conversion kinds x 4 where_clause settings"),
+    "c07": ("whole bodies (struct_init_block(_inner), struct_post_init, main_code_block) across the twelve impls of one input",
+            "by-reference body = owned body with borrows; fallible body = Ok(..) of the infallible one with `?` on the poured parent; into_existing assigns to every field what into builds, and pours the same parents",
+            "all member sequences of length 1..3 over 9 member forms (plain, renamed, expression, both, from/into pair, ghost, child, nested child, bare parent) x with / without struct-level ghosts = 1,638 structs, each with map + try_map + into_existing + try_into_existing (12 impls)"),
+    "c17": ("every emitter, end to end",
+            "the expansion is a sequence of impl items; each implements one of the six traits with exactly its one method, the documented signature, and `type Error` iff fallible",
+            "the 1,638 structs of the c07 corpus x 4 instructions, plus tuple / unit / hinted / nameless-tuple structs and enums x 6 instructions x 5 counterpart forms: 6,716 inputs"),
     "c08": ("struct_init_block_inner (`..expr`, ghosts), main_code_block, quote_*_trait end to end",
             "vars are the first statements, once, in declaration order; `..expr` is the base of the literal after exactly the fields the member instructions provide; `return expr` is the whole body; attribute / impl_attribute / inner_attribute sit on the fn / the impl / inside the body of every impl the instruction produces",
             "24 instructions x 7 type shapes x {no vars, 2 vars} x 5 attribute sets x {none, ..expr, return expr} x 2 parameter orders"),
@@ -274,6 +303,13 @@ def _run(prop, tier):
     if prop == "C03":
         v, rep = structural("c03", prop)
         return {"violations": v, "report": {"nesting_trees": rep}}
+    if prop == "C07":
+        v, rep = structural("c07", prop)
+        return {"violations": v, "report": {"flavours_agree": rep}}
+    if prop == "C17":
+        v, rep = structural("c17", prop)
+        v2, rep2 = c17_ledger()
+        return {"violations": v + v2, "report": {"item_shapes": rep, "recorded_inputs_well_formed": rep2}}
     if prop == "C11":
         v, rep = structural("c11", prop)
         return {"violations": v, "report": {"impl_headers": rep}}
